@@ -10,6 +10,9 @@ NOTE = ("Trusted base: Coq 8.16.1 kernel; no axioms (Print Assumptions of every 
 TECH = 'Coq proof over hand-written model + checked correspondence (token equality, model-free oracle)'
 CLAIMED = {
  'C14': ("Full: theorems for every item and trait list (re-emitted item = input minus exactly the attributes the documentation assigns to the requested traits, at type/variant/field positions; on failure the item is still emitted; foreign content intact and in order in every case; derive macro re-emits nothing). Tied to the code by L1 on the ITEM part over thousands of generated items and checked model-free by a token-level reference.", 'DESIGN.md §3 C14'),
+ 'C15': ("Full: theorems for every struct/enum (attribute macro = derive macro on the item carrying the list as its first attribute; one list A++B = two lists A, B with the same shared arguments; an entry's outcome is independent of the co-requested traits whenever no attribute of the item is owned under one list only - ownership being the documentation's table; outcomes in list order). Tied to the code by L1 per group member and checked model-free by real-vs-real metamorphic comparison.", 'DESIGN.md §3 C15'),
+ 'C16': ("Partial: theorem that no expansion of the modelled generator reaches an unreachable!()/unwrap() site (Panic outcome) and every outcome is impls | error message | dump; termination/determinism of the model by construction. syn/structmeta/quote/proc_macro2 are outside the model: for them the evidence is the structure-aware mutation run over the test-suite/doc corpus (catch_unwind, re-parse, two runs), which is a test.", 'DESIGN.md §3 C16'),
+ 'C19': ("Full: theorems that a dumped entry (struct, enum, impl item; per-trait or shared flag) is the undumped outcome with impls replaced by their dump, errors unchanged, that the payload is token-for-token the items of the undumped outcome, and that the parsing context of all entries is independent of dump flags. Tied to the code by L1 (payload re-lexed) and checked real-vs-real.", 'DESIGN.md §3 C19'),
  'C18': ("Full: theorems over the model of build_deref_for_struct for every struct shape, entry and bound list (place returned is self.<the single field>, Target = its type, header = user generics/where; #fields != 1 <-> rejection; enums refused), tied to the code by exhaustive L1 over the shape grid and validated by compiled pointer-identity / write-through programs against the real proc-macro.", 'DESIGN.md §3 C18'),
 }
 props = [json.loads(l) for l in open(os.path.join(ROOT, 'properties.jsonl'))]
